@@ -31,6 +31,7 @@ func init() {
 		Families: []Family{
 			witnessFamily("C12"),
 			{Name: "flat", N: tierN(150000, 6000000), Run: c12Flat},
+			{Name: "big", N: bigN("C12"), Run: bigRun("C12")},
 			{Name: "protocol", N: tierN(100000, 5000000), Run: c12Protocol},
 		},
 	})
